@@ -415,6 +415,12 @@ def run(ctx):
         c12b(c, e)
         c12e(c, e, d, "derive-fixtures")
     ctx.run_clause("C12.d", fixtures)
+    # interned handles are stateful on the wire (first occurrence in full, later ones by reference): their
+    # encoder/decoder agreement is C15.c's rule, evaluated here as C12.f
+    from . import C15
+    ctx.alias = {"C15.c": "C12.f"}
+    ctx.run_clause("C12.f", C15.c15c)
+    ctx.alias = {}
     if ctx.tier == "thorough":
         rocks = ctx.program("rocks")
         ctx.run_clause("C12.a", lambda c: c12a(c, [rocks], "workspace"))
